@@ -400,10 +400,6 @@ class ndarray:
                     items.append(('mask', nz, k.shape))
                 elif k.dt in ('int',):
                     items.append(('arr', k))
-                elif k.dt == 'float' and k.size == 0:
-                    items.append(('arr', k.astype('int')))
-                elif k.dt == 'object' and k.size == 0:
-                    items.append(('arr', k.astype('int')))
                 else:
                     raise IndexError("arrays used as indices must be of integer (or boolean) type")
             elif isinstance(k, slice):
@@ -1585,7 +1581,79 @@ def trace(a):
 
 
 def delete(arr, obj, axis=None):
-    _unsupported("delete")
+    arr = asarray(arr)
+    if axis is None:
+        arr = arr.ravel()
+        axis = 0
+    n = arr.shape[axis]
+    if isinstance(obj, ndarray) and obj.dt == 'bool':
+        drop = set(i for i, b in enumerate(obj._flat()) if bool(b))
+    elif isinstance(obj, (list, tuple, ndarray, range)):
+        drop = set((_index(i) + n) % n for i in (obj._flat() if isinstance(obj, ndarray) else obj))
+    else:
+        drop = {(_index(obj) + n) % n}
+    keep = [i for i in range(n) if i not in drop]
+    key = tuple([slice(None)] * axis + [keep])
+    return arr[key]
+
+
+def insert(arr, obj, values, axis=None):
+    """numpy.insert for a scalar position; the inserted values are cast to arr's dtype (as numpy does)"""
+    arr = asarray(arr)
+    if axis is None:
+        arr = arr.ravel()
+        axis = 0
+    if isinstance(obj, (list, tuple, ndarray)):
+        _unsupported("insert with several positions")
+    nd = arr.ndim
+    if axis < 0:
+        axis += nd
+    n = arr.shape[axis]
+    pos = _index(obj)
+    if pos < 0:
+        pos += n
+    if pos < 0 or pos > n:
+        raise IndexError("index %d is out of bounds for axis %d with size %d" % (pos, axis, n))
+    values = asarray(values)
+    # move axis to front
+    order = [axis] + [a for a in range(nd) if a != axis]
+    A = arr.transpose(order)
+    rest = A.shape[1:]
+    # numpy: values broadcast against arr with the insertion axis of length 1 (or more)
+    if values.ndim == 0:
+        vals = [values.reshape((1,) * len(rest)) if rest else values]
+        k = 1
+        vflat = [_cast(values._flat()[0], arr.dt)] * _prod(rest)
+        blocks = [vflat]
+    else:
+        # values.shape must broadcast to arr.shape with axis-length k
+        if values.ndim == nd:
+            V = values.transpose(order)
+            k = V.shape[0]
+            blocks = [[_cast(v, arr.dt) for v in _broadcast_flat(V[i], rest)] for i in range(k)]
+        elif values.ndim == nd - 1 or nd == 1:
+            if nd == 1:
+                blocks = [[_cast(v, arr.dt)] for v in values._flat()]
+            else:
+                blocks = [[_cast(v, arr.dt) for v in _broadcast_flat(values, rest)]]
+        else:
+            _unsupported("insert with values of ndim %d into ndim %d" % (values.ndim, nd))
+    rows = [A[i]._flat() if rest else [A[i]] for i in range(n)]
+    newrows = rows[:pos] + blocks + rows[pos:]
+    flat = [v for r in newrows for v in r]
+    R = ndarray._new(flat, (len(newrows),) + tuple(rest), arr.dt)
+    inv = [0] * nd
+    for i, a in enumerate(order):
+        inv[a] = i
+    return R.transpose(inv).copy()
+
+
+def append(arr, values, axis=None):
+    arr = asarray(arr)
+    values = asarray(values)
+    if axis is None:
+        return concatenate([arr.ravel(), values.ravel()])
+    return concatenate([arr, values], axis=axis)
 
 
 def round_(a, decimals=0):
